@@ -303,10 +303,13 @@ func (r *runner) build(ev event, committed *snap) []*built {
 				b.to, b.value = to, v
 				b.spec = xch.OLVMSend(r.w, from, to, n, *balance.NewAmountFromBigInt(v))
 				gas = poorGas
-				have := committed.Acc[addrText(from.Addr)].NatBal
+				have := new(big.Int).Set(committed.Acc[addrText(from.Addr)].NatBal)
 				for _, e := range out {
 					if e.from.Equal(from.Addr) && e.expect == "executes" {
 						have = big.NewInt(0) // spent earlier in this block (all but the gas refund)
+					}
+					if !e.olvm && !e.skip && e.to.Equal(from.Addr) {
+						have.Add(have, e.value) // a native credit earlier in this block (the rich sender always can)
 					}
 				}
 				cost := new(big.Int).Add(v, new(big.Int).Mul(big.NewInt(poorGas), gwei))
